@@ -244,3 +244,30 @@ Example C13_parse_anchor_nonvacuous :
     (EBinary (at_loc (2, 3)) BAdd (EIdent (at_loc (1, 0)) "a" false)
        (EIndex (at_loc (3, 1)) (EIdent (at_loc (3, 0)) "b" false) (EUnary (at_loc (3, 2)) UMinus (EInt (at_loc (3, 3)) 1)))).
 Proof. vm_compute. repeat split; try reflexivity; intros; discriminate. Qed.
+
+(* ------------------------------------------------------------------------------------------
+   Compile-time TYPE errors point at the offending node.  The checker model (Ty/Checker.v, tied to
+   checker/checker.go by C03's executed correspondence) reports the FIRST fault in visiting order at
+   the location of the node - or of the operand - that the violated rule names (first_fault /
+   fault_loc of Ty/SoundProofs.v: single faults are the special case where nothing else fails).
+   Under a result directive (AsBool / AsInt64 / AsFloat64) the pinned checker tests the expected kind
+   BEFORE it returns the recorded error, so the position can be lost: that disjunct is the recorded
+   finding C13-expect-kind-hides-position. *)
+Require Import X.Ty.Types X.Ty.TypesTable X.Ty.Checker X.Ty.CheckProofs X.Ty.Sound X.Ty.SoundProofs.
+
+Theorem C13_check_loc : forall c e l, cc_expect c = None -> first_fault c [] e l ->
+  exists k, snd (check c e) = Some (l, k).
+Proof. exact first_error_location_plain. Qed.
+Print Assumptions C13_check_loc.
+
+Theorem C13_check_loc_under_directive : forall c e l, first_fault c [] e l ->
+  exists k, snd (check c e) = Some (l, k) \/
+            (cc_expect c <> None /\ snd (check c e) = Some (noloc, CExpect)).
+Proof. exact first_error_location. Qed.
+Print Assumptions C13_check_loc_under_directive.
+
+(* non-vacuity: `I + S * 2` (fault at the inner operator, column 6) and a fault inside a closure *)
+Example C13_check_loc_nonvacuous :
+  first_fault SWit.c [] LWit.e_inner (1%Z, 6%Z) /\ snd (check SWit.c LWit.e_inner) = Some ((1%Z, 6%Z), CMismatch2) /\
+  first_fault SWit.c [] LWit.e_closure (1%Z, 11%Z) /\ snd (check SWit.c LWit.e_closure) = Some ((1%Z, 11%Z), CTooMany).
+Proof. exact (conj LWit.e_inner_fault (conj LWit.e_inner_reported (conj LWit.e_closure_fault LWit.e_closure_reported))). Qed.
